@@ -81,7 +81,9 @@ func (l *Listener) Accept() (net.Conn, error) {
 
 // Close implements net.Listener: later dials are refused.
 func (l *Listener) Close() error {
+	err := error(&net.OpError{Op: "close", Net: "tcp", Addr: l.addr, Err: net.ErrClosed}) // what a second Close of a real listener returns
 	l.once.Do(func() {
+		err = nil
 		close(l.closed)
 		l.n.mu.Lock()
 		if l.n.listeners[l.name] == l {
@@ -97,7 +99,7 @@ func (l *Listener) Close() error {
 			c.Reset()
 		}
 	})
-	return nil
+	return err
 }
 
 // Closed reports whether Close has been called.
